@@ -55,6 +55,10 @@ def run(P, rep, tier):
     ctx = Ctx(P)
     rep.attempt(r1_check_table, P, rep, ctx)
     rep.attempt(r2_open_coverage, P, rep, ctx)
+    # a damaged container must make the open fail, not vanish from the set: the directory listing has no content filter
+    from . import c03
+
+    rep.attempt(c03.r3b_find_files_filter, P, rep, ctx, "C04.R2")
     rep.attempt(r3_subclass, P, rep, ctx)
     rep.attempt(r4_magic_parse, P, rep, ctx)
     rep.attempt(r5_payload_hash, P, rep, ctx)
